@@ -6,6 +6,7 @@ LEVEL = "model_checking"
 
 
 def run_s2c(rep, module, cfg_text, replayer, opts=(), **kw):
+    """owners=... : property ids whose clauses are verdicts of this check"""
     res = pipeline.spec_to_code(rep, module, cfg_text, replayer, opts, **kw)
     if kw.get("simulate"):
         rep.cov.setdefault("tlc_runs", []).append(
@@ -290,3 +291,132 @@ def c15(tier):
 
 CHECKS["C14"] = c14
 CHECKS["C15"] = c15
+
+
+CODEC_CFG = """SPECIFICATION Spec
+CONSTANTS
+  Domain <- {dom}
+INVARIANT HPRoundTrip
+INVARIANT HPInjective
+INVARIANT NibbleBytes
+INVARIANT BitBytes
+INVARIANT KeypathRoundTrip
+INVARIANT EmitRow
+CHECK_DEADLOCK FALSE
+"""
+
+
+def c16(tier):
+    import json
+    import os
+    import random
+
+    from . import codec, tlc
+    from .common import import_repo, seed, MachineryError
+
+    rep = Report("C16", tier, "exploration")
+    rep.assumptions += ["the definitions in spec/Codec.tla are a faithful reading of Yellow Paper appendix C and of the "
+                        "binary node format", "exhaustive within the bounded domain, random beyond it"]
+    run_s2c(rep, "MC_Codec", CODEC_CFG.format(dom="DQuick" if tier == "quick" else "DFull"),
+            "harness.codec:replay_line", timeout=3400)
+    rep.cov["exhaustive"] = True
+    rep.cov["table_rows_checked"] = rep.cov.pop("behaviours_replayed", 0)
+    rep.cov["distinct_rows"] = rep.cov.pop("distinct_final_states_replayed", 0)
+    need(rep, ["row:nib", "row:bits", "row:bytes", "shape:InvalidNode", "shape:kv", "shape:branch", "shape:leaf"])
+    # (ii) longer random inputs through the real functions, recomputed by TLC
+    mod = import_repo()
+    rows = codec.record_calls(mod, random.Random(seed() * 31 + 5), 150 if tier == "quick" else 3000)
+    for i, r in enumerate(rows):
+        r["id"] = i + 1
+    wd = tlc.fresh_workdir("codec_trace")
+    path = os.path.join(wd, "rows.json")
+    with open(path, "w") as fh:
+        json.dump(rows, fh)
+    fails, done = [], []
+
+    def on_emit(line):
+        o = tlc.parse_emit(line)
+        (fails if "fail" in o else done).append(o.get("fail", o.get("done")))
+
+    res = tlc.run("Trace_Codec", None, cfg_text="SPECIFICATION Spec\nCONSTANTS\n  Domain <- TraceDomain\n"
+                  "INVARIANT Check\nINVARIANT Done\nCHECK_DEADLOCK FALSE\n", workers=8, on_emit=on_emit,
+                  env={"TRACE_FILE": path}, wd=wd, timeout=3000)
+    tlc.require_clean(res, "Trace_Codec")
+    if len(set(done)) != len(rows):
+        raise MachineryError(f"Trace_Codec examined {len(set(done))} of {len(rows)} recorded calls")
+    rep.add("recorded_calls_recomputed_by_tlc", len(rows))
+    rep.cov["table_rows_checked"] += len(rows)
+    rep.cov["distinct_rows"] += len({json.dumps({k: v for k, v in r.items() if k != "id"}) for r in rows})
+    for i in sorted(set(fails)):
+        rep.violation("real-result-differs-from-the-definition", {"call": rows[i - 1]}, {"kind": "codec-row", "row": rows[i - 1]})
+    rep.sample({"direction": "code->spec", "recorded_call": rows[seed() % len(rows)]}, cap=6)
+    # (iii) hexary nodes read back from a database classify as written: a small hexary run
+    from . import checks_hexary as ch
+
+    ch.run_spec_to_code(rep, ch.cfg(keys="KFull", look="LFull", vals="VFull", maxlive=4, features="FDirect",
+                                    invariants=["Canonical"], level=3 if tier == "quick" else 5, emit="EmitAll"),
+                        ("classify",), owners={"C16"})
+    rep.cov["table_rows_checked"] += rep.cov.pop("behaviours_replayed", 0)
+    rep.cov["distinct_rows"] += rep.cov.pop("distinct_final_states_replayed", 0)
+    rep.cov["evaluations"] = rep.cov["table_rows_checked"] + rep.cov.get("real_calls_in_state_tables", 0)
+    rep.cov["distinct_nontrivial"] = rep.cov["distinct_rows"]
+    rep.cov["rule"] = ("rows = members of the bounded domain enumerated by TLC from Codec.tla (every nibble sequence up "
+                       "to the stated length with and without terminator, every bit string up to the stated length, "
+                       "every byte string of length <= 1 (2), every (type byte, length) shape), plus recorded real calls "
+                       "on longer random inputs recomputed by TLC, plus hexary behaviours whose database nodes are "
+                       "re-classified; distinct = distinct rows / distinct final states; all rows are non-trivial "
+                       "(each is a different input)")
+    return rep.finish()
+
+
+CHECKS["C16"] = c16
+
+
+def c18(tier):
+    from . import checks_hexary as ch
+
+    rep = Report("C18", tier, LEVEL)
+    rep.assumptions += ["the argument kinds are a finite list (spec tables HexRejects, BinRejects, SmtRejects, FogRejects); "
+                        "for each kind the harness cycles through concrete ill-typed values (None, int, str, bytearray, "
+                        "list, tuple, memoryview, float, dict; lengths one short / one long / empty)",
+                        "not demanded (and not judged): the node-hash argument of the four branch helpers and the value "
+                        "argument of SparseMerkleProof.update"]
+    own = {"C18"}
+    q = tier == "quick"
+    inv = ["Canonical", "PruneExact", "RcTrue", "Readable"]
+    base = dict(features="FReject", invariants=inv, properties=["RejectedUnchanged"], emit="EmitAll")
+    # hexary: a refused call from every reachable state (the call is a self-loop of the model) ...
+    ch.run_spec_to_code(rep, ch.cfg(**dict(base, level=4 if q else 5, vals="VFull")), (), owners=own)
+    # ... and refused calls in the middle of histories: every behaviour up to a small depth, and long random ones
+    ch.run_spec_to_code(rep, ch.cfg(**dict(base, level=3 if q else 4, view="ViewHist", keys="KThresh", look="LThresh",
+                                          vals="VShare", prune="OnlyPrune")), (), owners=own)
+    sim = dict(base, features="FRejectNoop", keys="KFull", look="LFull", vals="VFull", maxlive=4, level=None, emit=None,
+               invariants=inv + ["EmitStAll"])
+    ch.run_spec_to_code(rep, ch.cfg(**sim), (), owners=own, simulate=dict(num=24 if q else 480, depth=10 if q else 14))
+    # binary trie and branch helpers
+    Rb = "harness.binary:replay_line"
+    run_s2c(rep, "MC_Binary", bin_cfg(spec="SpecRL4" if q else "SpecRL5", inv=["Canonical", "MapOK"], prop=()), Rb, owners=own)
+    run_s2c(rep, "MC_Binary", bin_cfg(spec="SpecRL3" if q else "SpecRL4", inv=["Canonical"], prop=(), view="ViewHist"), Rb,
+            owners=own)
+    run_s2c(rep, "MC_Binary", bin_cfg(spec="SpecR", keys="KFull", look="LFull", maxlive=5, inv=["Canonical", "EmitSt"],
+                                      prop=(), emit=""), Rb, owners=own, simulate=dict(num=120 if q else 2400, depth=12))
+    # sparse Merkle tree, calc_root, proof
+    Rs = "harness.smt:replay_line"
+    run_s2c(rep, "MC_SMT", smt_cfg(ops=2, trunc="TFull8").replace("SPECIFICATION Spec", "SPECIFICATION SpecR"), Rs,
+            owners=own)
+    run_s2c(rep, "MC_SMT", smt_cfg(depth=16, keys="K16", ops=12, trunc="TFull16", emit="INVARIANT EmitSt")
+            .replace("SPECIFICATION Spec", "SPECIFICATION SpecR"), Rs, owners=own,
+            simulate=dict(num=96 if q else 1200, depth=12))
+    # fog and Nibbles
+    Rf = "harness.fog:replay_line"
+    run_s2c(rep, "MC_Fog", FOG_CFG.format(spec="SpecRL3" if q else "SpecRL4", segs="SegsSmall", view="View"), Rf, owners=own)
+    run_s2c(rep, "MC_Fog", FOG_CFG.format(spec="SpecR", segs="Segs", view="View"), Rf, owners=own,
+            simulate=dict(num=24 if q else 240, depth=8))
+    need(rep, ["rejected-call-in-mid-history"])
+    acts = rep.cov.get("replayed_last_action_counts", {})
+    if not acts.get("reject"):
+        rep.vacuity.append("no behaviour ended in a rejected call")
+    return rep.finish()
+
+
+CHECKS["C18"] = c18
